@@ -8,7 +8,7 @@ from .. import gens, model, printing, rfc
 from ..core import Prop, Violation
 from .c15 import utils_documents, UKEYS
 from .c16 import dump_to_jv
-from .c17 import sound_and_usable, append_everywhere, edit, EDITS
+from .c17 import sound_and_usable, append_everywhere, edit, EDITS, grow_both
 
 CASE_KEYS = [b"a", b"A", b"key", b"Key", b"KEY", b"b", b"B", b"x", b"X", b"ab", b"aB", b"", b"a/b", b"~", b"\xc3\xa9", b"\xff", b"Z", b"z\x80"]
 
@@ -23,15 +23,15 @@ def merge_documents(max_leaves=10, min_leaves=1, nulls=True):
                      gens.shaped_documents(st.one_of(*leaves), keys, max_leaves=4, unique_keys=True), st.one_of(*leaves))
 
 
-def random_object(rnd, depth, nulls=True):
+def random_object(rnd, depth, nulls=True, top=True):
     """object-heavy documents with case-variant keys at every level"""
-    n = rnd.randint(0, 4)
+    n = rnd.randint(2, 5) if top else rnd.randint(0, 4)
     keys = rnd.sample(CASE_KEYS, n)
     members = []
     for k in keys:
         r = rnd.random()
         if depth > 0 and r < 0.55:
-            v = random_object(rnd, depth - 1, nulls)
+            v = random_object(rnd, depth - 1, nulls, False)
         elif r < 0.65:
             v = ["A", [rnd.choice([["n"], ["N", 1.0], ["O", [[b"k", ["n"]]]], ["O", [[b"name", ["S", b"x"]], [b"id", ["N", 1.0]]]],
                                    ["A", [["O", [[b"key", ["t"]]]]]]]) for _ in range(rnd.randint(0, 3))]]
@@ -42,7 +42,7 @@ def random_object(rnd, depth, nulls=True):
 
 
 def object_documents(nulls=True):
-    return st.tuples(st.integers(0, 2 ** 31), st.integers(1, 3)).map(lambda t: random_object(random.Random(t[0]), t[1], nulls))
+    return st.tuples(st.integers(0, 2 ** 31), st.integers(1, 4)).map(lambda t: random_object(random.Random(t[0]), t[1], nulls))
 
 
 def strip_null_members(jv):
@@ -212,6 +212,48 @@ class C18(Prop):
                     lib.cJSON_Delete(p)
             arena.close()
 
+    def second_round(self, lib, pf, pt, rnd, stats):
+        """history: the inputs of a generation (which may have reordered their members) are edited through the core API and a
+        merge patch is generated again on duplicates of them; it must be judged by the documents as they are now"""
+        f2, t2 = lib.cJSON_Duplicate(pf, 1), lib.cJSON_Duplicate(pt, 1)
+        patch = res = None
+        try:
+            # the ORIGINALS are edited (they carry whatever state the first generation left behind); the duplicates stay as witnesses
+            jf, jt = dump_to_jv(lib, pf), dump_to_jv(lib, pt)
+            count = [0]
+            saved = (copy.deepcopy(jf), copy.deepcopy(jt))
+            grow_both(lib, pf, jf, rnd, 0.5, count)
+            grow_both(lib, pt, jt, rnd, 0.5, count)
+            if not count[0]:
+                return
+            stats.cls("second_generation_after_edits")
+            patch = lib.cJSONUtils_GenerateMergePatchCaseSensitive(pf, pt)
+            ctx = "(second generation, after appending members to the inputs of the first) from %s to %s" % (model.emit_text(jf)[:200], model.emit_text(jt)[:200])
+            equal = model.eq_set(jf, jt, True)
+            if not patch:
+                if not equal:
+                    raise Violation("GenerateMergePatchCaseSensitive returned NULL although the documents differ: " + ctx, key="null-but-different")
+            else:
+                pj = dump_to_jv(lib, patch)
+                ctx += " patch %s" % model.emit_text(pj)[:300]
+                if not model.eq_set(rfc.merge_apply(jf, pj), jt, True):
+                    raise Violation("applying the generated merge patch (RFC 7396 reference) does not give 'to': " + ctx, key="gen-ref-result")
+                dup = lib.cJSON_Duplicate(pf, 1)
+                res = lib.cJSONUtils_MergePatchCaseSensitive(dup, patch)
+                if not res or not model.eq_set(dump_to_jv(lib, res), jt, True):
+                    raise Violation("the library merging its own patch does not give 'to': " + ctx, key="gen-lib-result")
+            for p, j, name in ((pf, jf, "'from'"), (pt, jt, "'to'")):
+                sound_and_usable(lib, p, name)
+                if not model.eq_set(dump_to_jv(lib, p), j, True):
+                    raise Violation("%s changed in value during the second merge patch generation: %s" % (name, ctx), key="input-modified")
+            # the witnesses were not touched by any of this
+            if not model.eq_set(dump_to_jv(lib, f2), saved[0], True) or not model.eq_set(dump_to_jv(lib, t2), saved[1], True):
+                raise Violation("duplicates of the inputs changed while the originals were edited and diffed", key="input-modified")
+        finally:
+            for p in (f2, t2, patch, res):
+                if p:
+                    lib.cJSON_Delete(p)
+
     def run_generate(self, lib, case, stats):
         rnd = random.Random(case["rseed"])
         frm = case["from"]
@@ -244,11 +286,14 @@ class C18(Prop):
                 if not model.eq_set(dump_to_jv(lib, p), j, True):
                     raise Violation("%s changed in value during merge patch generation: %s" % (name, ctx), key="input-modified")
                 append_everywhere(lib, p, j, name)
+            dup = lib.cJSON_Duplicate(pf, 1)
+            self.second_round(lib, pf, pt, rnd, stats)
             if not patch:
                 stats.cls("generated_null_patch")
                 if not equal:
                     raise Violation("GenerateMergePatchCaseSensitive returned NULL (no change) although the documents differ: " + ctx, key="null-but-different")
                 return
+            # (the first patch is judged against the documents as they were when it was generated)
             pj = dump_to_jv(lib, patch)
             ctx += " patch %s" % model.emit_text(pj)[:300]
             if any(n[0] == "O" and len(set(k for k, _ in n[1])) != len(n[1]) for n in model.walk_jv(pj)):
@@ -256,7 +301,6 @@ class C18(Prop):
             ref = rfc.merge_apply(frm, pj)
             if not model.eq_set(ref, to, True):
                 raise Violation("applying the generated merge patch (RFC 7396 reference) gives %s, not 'to': %s" % (model.emit_text(ref)[:200], ctx), key="gen-ref-result")
-            dup = lib.cJSON_Duplicate(pf, 1)
             res = lib.cJSONUtils_MergePatchCaseSensitive(dup, patch)
             dup = None
             if not res or not model.eq_set(dump_to_jv(lib, res), to, True):
